@@ -23,6 +23,32 @@ def specObs (c : Case) : Sexp :=
     | none => []
   Sexp.mk "spec" c03
 
+/-- `ItemPath::from_path(rel)`: `with_extension("")` (drop what follows the last dot of the file name,
+    unless that dot is its first character), then one segment per path component -/
+def pathOfFile (file : String) : Path :=
+  let comps := (file.splitOn "/").filter (· != "")
+  match comps.reverse with
+  | [] => []
+  | last :: revInit =>
+    let cs := last.toList
+    let stem :=
+      match cs.reverse.dropWhile (· != '.') with
+      | [] => last
+      | _ :: revStem => if revStem.isEmpty then last else String.ofList revStem.reverse
+    revInit.reverse ++ [stem]
+
+/-- text modules are parsed with the parser model first (as `SemanticState::add_file` does);
+    a parse error is the error of the whole build, with file:line:column -/
+def resolveTexts (c : Case) : Except String Case := do
+  let mods ← c.modules.mapM fun me =>
+    match me with
+    | .ast .. => pure me
+    | .text file text =>
+      match Parse.parseStr text with
+      | .ok m => pure (ModEnt.ast (pathOfFile file) file m)
+      | .error (l, col) => throw s!"failed to parse {file}:{l}:{col + 1}"
+  pure { c with modules := mods }
+
 def handleCase (points : List String) (line : String) : List String :=
   match Sexp.parse line with
   | none => [obsLine "?" "error" (.str "unparsable line")]
@@ -30,9 +56,14 @@ def handleCase (points : List String) (line : String) : List String :=
     match caseOfSexp sx with
     | none => [obsLine "?" "error" (.str "not a case")]
     | some c =>
+      let c2 := resolveTexts c
       points.filterMap fun pt =>
-        if pt == "o2" then some (obsLine c.id "o2" c.o2)
-        else if pt == "o3" then some (obsLine c.id "o3" c.o3)
+        if pt == "o2" then some (obsLine c.id "o2" (match c2 with
+          | .ok c' => c'.o2
+          | .error m => Sexp.mk "err" [Sexp.mk "other" [.str m]]))
+        else if pt == "o3" then some (obsLine c.id "o3" (match c2 with
+          | .ok c' => c'.o3
+          | .error m => Sexp.mk "err" [.str m]))
         else if pt == "o1" then some (obsLine c.id "o1" c.o1)
         else if pt == "o1text" then some (obsLine c.id "o1text" c.o1text)
         else if pt == "spec" then some (obsLine c.id "spec" (specObs c))
